@@ -651,12 +651,14 @@ int main(int argc, char **argv)
     add_specs(6, false, 2, 6, false, 0);
     for (int L = 5; L <= 9; ++L)
       add_specs(L, L % 2 == 0, 3, L, false, 1);
-    add_specs(10, false, 3, 10, false, 0);
+    // 10 variables are out of reach of the truth-table oracle: the nested product encoding of the 4 row variables
+    // brings the formula to 26 variables (2^26 rows, > 4 GB of arena); 9 (3x3 grid) needs 18
   }
   vf::Options opt;
   opt.jobs = (int)args.num("jobs", 16);
   opt.batch = 1;
   opt.case_limit_ms = 10000;
+  opt.max_dead_cases = 50; // aborts piling up (a harness limit or a broken tree): stop handing out work, exhaustive:false
   long dl = args.num("deadline_s", 0);
   if (dl)
     opt.deadline_ms = vf::now_ms() + (uint64_t)dl * 1000;
